@@ -430,7 +430,7 @@ def big_scenario(seed, index, profile):
     prof = dict(profile)
     prof["n_arms"] = [20, 25, 30]
     prof["dims"] = [10, 12]
-    prof["batch_sizes"] = [40, 300, 600, 1100] if not profile.get("big_small_batches") else [40, 150, 300]
+    prof["batch_sizes"] = [40, 300, 600, 1100] if not profile.get("big_small_batches") else profile.get("big_batches", [40, 150, 300])
     prof["query_sizes"] = [1, 33, 65]
     prof["n_ops"] = (2, 5)
     w = dict(profile.get("weights", {"fit": 1, "pfit": 3, "query": 4, "add": 1.5, "rem": 1, "warm": 0}))
@@ -445,8 +445,11 @@ def big_scenario(seed, index, profile):
         lp["tau"] = rng.choice([2.0 ** -10, 2.0 ** 10, 1.0])
     if "alpha" in lp and lp["k"] != "lints":
         lp["alpha"] = rng.choice([0.0, 8.0, lp["alpha"]])
+    zero_col = False
     if "lam" in lp:
-        lp["lam"] = rng.choice([2.0 ** -10, 2.0 ** 10, lp["lam"]])
+        # (regularisers far below the data - condition numbers beyond 1/eps - are left out: numpy then raises LinAlgError or
+        # returns rounding noise depending on the rows, which no exact model can follow)
+        lp["lam"] = rng.choice([2.0 ** -4, 2.0 ** 6, lp["lam"]])
     if "eps" in lp:
         lp["eps"] = rng.choice([0.0, 1.0, lp["eps"]])
     npc = cfg.get("np")
@@ -457,13 +460,18 @@ def big_scenario(seed, index, profile):
             npc["r"] = rng.choice([0.5, 6.0, 1000.0])
             npc["probs"] = None
         elif npc["k"] == "lsh":
-            npc["ndim"] = rng.choice([2, 12, 20])
-            npc["ntab"] = rng.choice([1, 6])
+            # few / many planes and tables, and products n_tables * n_dimensions around the widths of machine words and of
+            # the float mantissa (53, 54 .. 63, 64)
+            npc["ndim"], npc["ntab"] = rng.choice([(2, 1), (12, 1), (20, 6), (11, 5), (21, 3), (9, 6), (8, 8), (53, 1), (2, 6)])
         elif npc["k"] == "clusters":
             npc["n"] = rng.choice([2, 8, 12])
     scn = g.build()
+    if zero_col:
+        for op in scn["ops"]:
+            if op["op"] in ("fit", "pfit") and op.get("c"):
+                op["c"] = [row[:-1] + [0.0] for row in op["c"]]
     scale = rng.choice([1.0, 1.0, 2.0 ** 20, 2.0 ** -12])
-    if g.lpk not in ("thompson",) and scale != 1.0:
+    if g.lpk not in ("thompson",) + tuple(LIN_KINDS) and scale != 1.0:
         for op in scn["ops"]:
             if op.get("r") is not None:
                 op["r"] = [x * scale if isinstance(x, (int, float)) and not isinstance(x, bool) else x for x in op["r"]]
